@@ -1861,6 +1861,7 @@ var rpcDirected = []string{
 	"1lB,pRQ0:boot:s1,lC0:5:k0,lP0:0:0,pRQ0:ok:r0,lH0:0,lA1:0,fN1,lZ",                // Close (abort message cannot be created) while embargoed
 	"1lB,fH,pRQ0:boot:s1,lB,fG,pRQ0:boot:s1",                                         // a new question while the Return's Finish is still to be sent
 	"1lB,lB,pRQ0:boot:s1,lS0:0,lr0,pRQ0:boot:s1,fG,lR1",                               // a reference to an import arrives while its last handle is being released
+	"1lB,lB,pRQ0:boot:s1,lS0:0,lr0,pRQ0:boot:s1,lR1,fG",                               // … and the newer client goes away first
 }
 
 func genRPCCheck(rec *lib.Rec, r *lib.Rng, n int, hostile, faults bool) {
